@@ -473,7 +473,7 @@ def run(ctx):
     q = ctx.tier == 'quick'
     ctx.bounds = dict(tier=ctx.tier,
                       exhaustive='<=%d layers, spacings {1,2} dex in any order, bounds/deck on every half-dex position from one dex above the top to one dex below the surface and "unset", both orders; clear transmittances in {0,1/2,1}' % (3 if q else 5),
-                      vectors='every exported (grid, bounds/deck) of the 3-layer config through prepare() and model() on explicit-level grids and, for uniform grids, SimplePressureProfile',
+                      vectors='every exported (grid, bounds/deck) of the %d-layer export config through prepare() and model()' % (3 if q else 4) + ' on explicit-level grids and, for uniform grids, SimplePressureProfile',
                       traces='random grids 2..100 layers (simple / array / explicit levels), random bounds of 6 classes, random magnitudes, Lee radius 0.01..3 um, Q 1..80')
     ctx.assumptions = ['log10 of pressures is evaluated by the harness (positions round(1e6 log10 P)); random bounds are either float-identical to an exposed level / layer pressure or at least 2e-4 dex away from all of them',
                        'Lee Qext law evaluated by the harness from the documented formula (uninterpreted positive table for the spec)',
@@ -485,7 +485,7 @@ def run(ctx):
     ctx.exhaustive = True
     X = setup()
     rng = random.Random(ctx.seed * 15485863 + 19)
-    res = ctx.check_spec('export', 'MC_Clouds', 'EX_Clouds.cfg', workers=1)
+    res = ctx.check_spec('export', 'MC_Clouds', 'EX_Clouds.cfg' if q else 'EX_Clouds_thorough.cfg', workers=1)
     vecs = res.tagged('VEC')
     if q:
         keep = [v for v in vecs if len(v['lev']) <= 3]
@@ -494,7 +494,7 @@ def run(ctx):
         vecs = keep + rest[:1500]
     nev = run_vectors(ctx, vecs, X, rng)
     ctx.note('binding A: %d exported vectors, %d real runs judged' % (len(vecs), nev))
-    run_random(ctx, X, rng, 24 if q else 200, 30 if q else 60, 40 if q else 100)
+    run_random(ctx, X, rng, 24 if q else 400, 30 if q else 60, 40 if q else 100)
 
 
 def replay(ctx, violations):
